@@ -13,6 +13,29 @@ use serde_json::{json, Value};
 use vharness::dynparser::{self, Def};
 use vharness::{catch, classify_error, Cfg};
 
+enum Timed<T> {
+    Done(T),
+    Panic(String),
+    Hang,
+}
+
+/// Runs `f` on its own thread (large stack), catching panics, giving up after
+/// `ms` milliseconds (the thread is abandoned; the caller exits the process).
+fn timed<T: Send + 'static>(ms: u64, f: impl FnOnce() -> T + Send + std::panic::UnwindSafe + 'static) -> Timed<T> {
+    let (tx, rx) = mpsc::channel();
+    std::thread::Builder::new()
+        .stack_size(256 << 20)
+        .spawn(move || {
+            let _ = tx.send(catch(f));
+        })
+        .unwrap();
+    match rx.recv_timeout(Duration::from_millis(ms)) {
+        Ok(Ok(x)) => Timed::Done(x),
+        Ok(Err(p)) => Timed::Panic(p),
+        Err(_) => Timed::Hang,
+    }
+}
+
 fn main() {
     let args: Vec<String> = std::env::args().collect();
     if args.len() < 4 || args[1] != "run" {
@@ -21,11 +44,22 @@ fn main() {
     }
     let mut skip = 0usize;
     let mut timeout_ms = 10_000u64;
+    // resume after a crash of this process (stack overflow / abort in the code under test)
+    let mut resume_input: Option<usize> = None;
+    let mut crash_phase = String::new();
     let mut i = 4;
     while i < args.len() {
         match args[i].as_str() {
             "--skip" => {
                 skip = args[i + 1].parse().unwrap();
+                i += 2
+            }
+            "--resume-input" => {
+                resume_input = Some(args[i + 1].parse().unwrap());
+                i += 2
+            }
+            "--crash" => {
+                crash_phase = args[i + 1].clone();
                 i += 2
             }
             "--timeout-ms" => {
@@ -53,9 +87,17 @@ fn main() {
         .map(|s| s.lines().count())
         .unwrap_or(0);
 
+    let progress_path = format!("{}.progress", args[3]);
+    let progress = |ci: usize, ii: usize, phase: &str| {
+        let _ = std::fs::write(&progress_path, format!("{ci} {ii} {phase}"));
+    };
     for (ci, line) in cases.lines().enumerate() {
         if ci < skip || line.trim().is_empty() {
             continue;
+        }
+        let resume = if ci == skip { resume_input } else { None };
+        if resume.is_none() {
+            progress(ci, 0, "dump");
         }
         let case: Value = serde_json::from_str(line).expect("case json");
         let id = case["id"].clone();
@@ -64,6 +106,15 @@ fn main() {
         let settings = cfg.settings();
         let raw = cfg.raw;
         let g2 = grammar.clone();
+        if ci == skip && crash_phase == "dump" {
+            writeln!(
+                errs,
+                "{}",
+                json!({"id": id, "cfg": cfg.to_json(), "class": "crash", "msg": "process aborted while compiling", "grammar": grammar, "ci": ci})
+            )
+            .unwrap();
+            continue;
+        }
         let dumped = catch(move || {
             if raw {
                 rustemo_compiler::verif::table_json_raw(&g2, &settings)
@@ -105,9 +156,52 @@ fn main() {
         ndumps += 1;
         let gref = ndumps;
 
+        // Optional second table: the GLR parser for the same grammar (C07 / C03).
+        let mut gdef: Option<(&'static Def, &'static [dynparser::Rec; dynparser::MAXT], Cfg, usize)> = None;
+        if let Some(gc) = case.get("glr") {
+            let gcfg = Cfg::from_json(gc);
+            let gs = gcfg.settings();
+            let g3 = grammar.clone();
+            let graw = gcfg.raw;
+            let gd = catch(move || {
+                if graw {
+                    rustemo_compiler::verif::table_json_raw(&g3, &gs)
+                } else {
+                    rustemo_compiler::verif::table_json(&g3, &gs)
+                }
+            });
+            match gd {
+                Ok(Ok(j)) => {
+                    let gt: Value = serde_json::from_str(j.as_str()).expect("hook json");
+                    let mut rec = serde_json::Map::new();
+                    rec.insert("id".into(), id.clone());
+                    rec.insert("cfg".into(), gcfg.to_json());
+                    rec.insert("grammar".into(), json!(grammar));
+                    if let Some(m) = case.get("meta") {
+                        rec.insert("meta".into(), m.clone());
+                    }
+                    rec.insert("t".into(), gt.clone());
+                    writeln!(dumps, "{}", Value::Object(rec)).unwrap();
+                    ndumps += 1;
+                    let d: &'static Def = Box::leak(Box::new(Def::from_dump(&gt)));
+                    if let Ok(r) = dynparser::recognizers(d) {
+                        gdef = Some((d, r, gcfg, ndumps));
+                    }
+                }
+                Ok(Err(e)) => {
+                    let (class, msg) = classify_error(&e);
+                    writeln!(errs, "{}", json!({"id": id, "cfg": gcfg.to_json(), "class": class, "msg": msg, "grammar": grammar, "ci": ci})).unwrap();
+                }
+                Err(p) => {
+                    writeln!(errs, "{}", json!({"id": id, "cfg": gcfg.to_json(), "class": "panic", "msg": p, "grammar": grammar, "ci": ci})).unwrap();
+                }
+            }
+        }
         // An LR table with unresolved conflicts is not a parser the compiler would
         // emit (generate_parser refuses it), so it is dumped but never run.
-        if cfg.algo == "lr" && table["nconflicts"].as_u64().unwrap_or(0) > 0 {
+        let lr_runnable = cfg.algo == "lr" && table["nconflicts"].as_u64().unwrap_or(0) == 0;
+        let glr_primary = cfg.algo == "glr";
+        if !lr_runnable && !glr_primary && gdef.is_none() {
             continue;
         }
         let inputs = match case.get("inputs").and_then(|x| x.as_array()) {
@@ -126,53 +220,85 @@ fn main() {
             .get("max_trees")
             .and_then(|x| x.as_u64())
             .unwrap_or(200) as usize;
-        for inp in inputs {
+        for (ii, inp) in inputs.into_iter().enumerate() {
+            if let Some(r) = resume {
+                if ii < r {
+                    continue;
+                }
+            }
+            let crashed_here = resume == Some(ii);
             let text: &'static str =
                 Box::leak(inp["text"].as_str().unwrap().to_string().into_boxed_str());
-            let (tx, rx) = mpsc::channel();
-            let algo = cfg.algo.clone();
             let partial_in = inp.get("partial").and_then(|x| x.as_bool()).unwrap_or(cfg.partial);
-            let (lm, go, partial, skip_ws) = (cfg.lm, cfg.go, partial_in, cfg.skip_ws);
-            std::thread::Builder::new()
-                .stack_size(256 << 20)
-                .spawn(move || {
+            let mut hung = false;
+            // --- LR run
+            let (res, ev, tree) = if lr_runnable && crashed_here && crash_phase == "lr" {
+                let mut h = dynparser::panic_json("process aborted (stack overflow?)");
+                h["k"] = json!("crash");
+                (h, vec![], dynparser::empty_tree())
+            } else if lr_runnable {
+                progress(ci, ii, "lr");
+                let (lm, go, skip_ws) = (cfg.lm, cfg.go, cfg.skip_ws);
+                let r = timed(timeout_ms, move || {
                     def.install(lm, go);
-                    let r = catch(move || {
-                        if algo == "glr" {
-                            let (res, forest) =
-                                dynparser::run_glr(def, recs, text, partial, skip_ws, max_trees);
-                            (res, vec![], dynparser::empty_tree(), forest)
-                        } else {
-                            let (res, ev, tree) =
-                                dynparser::run_lr(def, recs, text, partial, skip_ws);
-                            (res, ev, tree, dynparser::no_forest())
-                        }
-                    });
-                    let _ = tx.send(r);
-                })
-                .unwrap();
-            let (res, ev, tree, forest, hung) = match rx.recv_timeout(Duration::from_millis(timeout_ms)) {
-                Ok(Ok((res, ev, tree, forest))) => (res, ev, tree, forest, false),
-                Ok(Err(p)) => (
-                    dynparser::panic_json(&p),
-                    vec![],
-                    dynparser::empty_tree(),
-                    dynparser::no_forest(),
-                    false,
-                ),
-                Err(_) => {
-                    let mut h = dynparser::panic_json("timeout");
-                    h["k"] = json!("hang");
-                    (h, vec![], dynparser::empty_tree(), dynparser::no_forest(), true)
+                    dynparser::run_lr(def, recs, text, partial_in, skip_ws)
+                });
+                match r {
+                    Timed::Done(x) => x,
+                    Timed::Panic(p) => (dynparser::panic_json(&p), vec![], dynparser::empty_tree()),
+                    Timed::Hang => {
+                        hung = true;
+                        let mut h = dynparser::panic_json("timeout");
+                        h["k"] = json!("hang");
+                        (h, vec![], dynparser::empty_tree())
+                    }
                 }
+            } else {
+                (dynparser::none_json(), vec![], dynparser::empty_tree())
+            };
+            // --- GLR run
+            let gl = if glr_primary {
+                Some((def, recs, cfg.clone(), gref))
+            } else {
+                gdef.clone()
+            };
+            let (gres, forest, g2) = match (&gl, hung) {
+                (Some((_, _, _, gi)), false) if crashed_here && crash_phase == "glr" => {
+                    let mut h = dynparser::panic_json("process aborted (stack overflow?)");
+                    h["k"] = json!("crash");
+                    (h, dynparser::no_forest(), *gi)
+                }
+                (Some((d, r, c, gi)), false) => {
+                    progress(ci, ii, "glr");
+                    let (d, r, gi) = (*d, *r, *gi);
+                    let (lm, go, skip_ws) = (c.lm, c.go, c.skip_ws);
+                    let gpartial = if glr_primary { partial_in } else { c.partial };
+                    let rr = timed(timeout_ms, move || {
+                        d.install(lm, go);
+                        dynparser::run_glr(d, r, text, gpartial, skip_ws, max_trees)
+                    });
+                    match rr {
+                        Timed::Done((a, b)) => (a, b, gi),
+                        Timed::Panic(p) => (dynparser::panic_json(&p), dynparser::no_forest(), gi),
+                        Timed::Hang => {
+                            hung = true;
+                            let mut h = dynparser::panic_json("timeout");
+                            h["k"] = json!("hang");
+                            (h, dynparser::no_forest(), gi)
+                        }
+                    }
+                }
+                _ => (dynparser::none_json(), dynparser::no_forest(), 0),
             };
             let out = json!({
                 "id": id, "iid": inp.get("iid").cloned().unwrap_or(json!(0)),
-                "g": gref, "algo": cfg.algo, "partial": partial_in,
+                "g": if lr_runnable || glr_primary { gref } else { 0 }, "g2": g2,
+                "algo": cfg.algo, "partial": partial_in,
                 "bytes": text.bytes().map(|b| json!(b)).collect::<Vec<_>>(),
                 "lex": inp.get("lex").cloned().unwrap_or(json!([])),
+                "lat": inp.get("lat").cloned().unwrap_or(json!([])),
                 "meta": inp.get("meta").cloned().unwrap_or(json!({})),
-                "res": res, "ev": ev, "tree": tree, "forest": forest,
+                "res": res, "ev": ev, "tree": tree, "gres": gres, "forest": forest,
             });
             writeln!(traces, "{}", out).unwrap();
             if hung {
